@@ -470,6 +470,22 @@ def part4(chk, thorough):
     for k, q in enumerate(corpus):
         for which in ((0, 1, 2) if thorough else (k % 3,)):
             reqs.append({"derive": q["derive"], "item": q["item"], "foreign": which})
+    # the helper attributes of OTHER derives are unrelated too (a derive that finds its attributes by prefix, or by the wrong name,
+    # starts reacting to them): two per item in the quick tier, chosen round-robin; all in thorough
+    helpers = ["from", "into", "as_ref", "as_mut", "deref", "deref_mut", "index", "index_mut", "into_iterator", "try_into", "try_from", "unwrap", "try_unwrap", "is_variant",
+               "error", "display", "debug", "mul", "mul_assign", "from_str", "constructor", "add", "not", "sum", "binary", "lower_hex", "pointer"]
+    own = {"DerefMut": {"deref_mut"}, "IndexMut": {"index_mut"}, "TryFrom": {"try_from"}}
+    import re as _re
+    for k, q in enumerate(corpus):
+        mine = own.get(q["derive"], set()) | {_re.sub(r"(?<!^)(?=[A-Z])", "_", q["derive"]).lower()} | set(_re.findall(r"#\[(\w+)", q["item"]))
+        if q["derive"] in ("Div", "Rem", "Shr", "Shl"):
+            mine |= {"mul"}
+        if q["derive"] in ("DivAssign", "RemAssign", "ShrAssign", "ShlAssign"):
+            mine |= {"mul_assign"}
+        cand = [h for h in helpers if h not in mine]
+        picks = cand if thorough else [cand[k % len(cand)], cand[(k * 7 + 3) % len(cand)]]
+        for j, h in enumerate(picks):
+            reqs.append({"derive": q["derive"], "item": q["item"], "foreign": 0, "foreign_text": "#[%s%s]" % (h, ("", "(forward)", "(ignore)")[(k + j) % 3])})
     res = svc(reqs)
     n = 0
     for q, r in zip(reqs, res):
@@ -483,7 +499,7 @@ def part4(chk, thorough):
         chk.outcome("unrelated-attributes-change-outcome")
         o2 = r.get("foreign_out", {})
         chk.violation("an unrelated attribute changes the outcome (%s): %s -> %s" % (q["derive"], r["k"], o2.get("k")),
-                      {"derive": q["derive"], "item": q["item"], "attribute": ["#[doc(hidden)]", "#[allow(dead_code)]", "#[rustfmt::skip]"][q["foreign"]]},
+                      {"derive": q["derive"], "item": q["item"], "attribute": q.get("foreign_text") or ["#[doc(hidden)]", "#[allow(dead_code)]", "#[rustfmt::skip]"][q["foreign"]]},
                       "plain: %s | decorated: %s" % ((r.get("out") or r.get("msg") or "")[:600], (o2.get("out") or o2.get("msg") or "")[:600]))
     chk.part("4_unrelated_attributes", corpus=len(corpus), compared=n, attributes=["#[doc(hidden)]", "#[allow(dead_code)]", "#[rustfmt::skip]"],
              placement="on the item, and before and after the own attributes of every variant and every field", per_item="one of the three (quick) / all three (thorough)")
